@@ -2,6 +2,7 @@
 From Coq Require Import List NArith ZArith Bool Lia String.
 From NB Require Import Base.Res Base.Json Base.PyStr Diff.DiffFormat Diff.Patch Diff.GenericDiff Diff.Wf
      Diff.Codec Diff.StringProofs Diff.MasterProofs Diff.SpecProofs Diff.NbGood Diff.NbProofs Diff.NbTotal Gen.NbConfig.
+From NB Require Extract.Api.
 Import ListNotations.
 
 (* the tables /repo installs meet what the proof needs (strict comparisons, a lone predicate is
@@ -76,3 +77,16 @@ Qed.
 Example nb_shaped_example : notebook_shaped ex_a = true /\ notebook_shaped ex_b = true
   /\ notebook_shaped (JObj [(s "cells", JArr [ex_cell (JStr (s "x")) [JObj [(s "output_type", JStr (s "display_data"))]]])]) = false.
 Proof. vm_compute. repeat split. Qed.
+
+(* the entry point of the extracted runner (the function the correspondence check executes against nbdime)
+   answers {"ok": diff} on notebook-shaped documents: the fuel it passes is enough *)
+Lemma nb_api_total O a b :
+  opcodes_valid O -> wfj a = true -> wfj b = true -> sources_are_strings a = true ->
+  notebook_shaped a = true -> notebook_shaped b = true ->
+  exists d, Api.api_nbdiff O Api.nb_config a b = JObj [(Api.k_ok, enc_diff d)]
+            /\ (forall m, depth a < m -> patch m a d = Ok b).
+Proof.
+  intros Hops Hwa Hwb Hs Sa Sb.
+  destruct (nb_total O (Api.fuel_of a b) a b Hops Hwa Hwb Hs Sa Sb ltac:(unfold Api.fuel_of; lia)) as (d & Hd & Hp & _).
+  exists d. split; [|exact Hp]. unfold Api.api_nbdiff, Api.nb_config. rewrite Hd. reflexivity.
+Qed.
